@@ -151,6 +151,26 @@ theorem delivers_cons_other (op : SOp) (rest : List SOp) (h : ∀ k, op ≠ .del
   | emit f => rfl
   | recv => rfl
   | ack k => rfl
+  | sync => rfl
+  | resync k => rfl
+
+theorem noResyncB_iff (ops : List SOp) : noResyncB ops = true ↔ NoResync ops := by
+  unfold noResyncB NoResync
+  rw [List.all_eq_true]
+  constructor
+  · intro h op hop k hk
+    have := h op hop
+    rw [hk] at this
+    cases this
+  · intro h op hop
+    cases op with
+    | resync k => exact absurd rfl (h _ hop k)
+    | enq d c m f => rfl
+    | emit f => rfl
+    | deliver k => rfl
+    | recv => rfl
+    | ack k => rfl
+    | sync => rfl
 
 /-- `idealFrom s n ops` says exactly: whenever the run reaches a `deliver k` step of `ops` (without
 having trapped), `k` is `n` plus the number of `deliver` steps before it, and the network holds more
